@@ -11,7 +11,7 @@
   A fresh object is `{}` (all counters 0); the theorems are stated for every non-final state where that is true
   of the code, so that they cover histories.
 -/
-import Proofs.Lemmas.PaddingCont
+import Proofs.Lemmas.PaddingUnpad
 namespace Proofs.C09
 open Model Model.Padder Spec.Padding Proofs.Lemmas.Padding
 
@@ -104,6 +104,57 @@ theorem padflag_law (p : Padder) (hv : Valid p) (st : PadState) (hflag : st.padf
       ((p.iterblocks st m L true).yields[i]).2.padflag = decide (kOf p m L ≤ i) := by
   obtain ⟨_, _, _, _, _, h6, h7, _⟩ := run_facts p hv st hflag m hm L hL hbg
   exact ⟨h7, fun i h => (h6 i h).1⟩
+
+/-! ### unpadding -/
+
+/-- removing the padding from the concatenation of the emitted blocks (on the object that produced them: zero
+    padding needs its `padcnt`) returns exactly the first L bits of the message, last partial byte zero-filled -/
+theorem remove_pad (p : Padder) (hv : Valid p) (st : PadState) (hflag : st.padflag = false)
+    (m : List Nat) (hm : Bytes m) (L : Option Nat) (hL : effLen m L ≤ 8 * m.length)
+    (hbg : L ≠ none → BitGranular p.scheme) :
+    p.remove (p.iterblocks st m L true).final (((p.iterblocks st m L true).yields.map (·.1)).flatten)
+      = .ok (msgBytes m (effLen m L)) :=
+  remove_run p hv st hflag m hm L hL hbg
+
+/-- PKCS#7: `remove` succeeds exactly on the well-padded strings (last byte q, 1 ≤ q ≤ block length, the last q
+    bytes all equal q) and then strips those q bytes; every other string (empty included) raises -/
+theorem pkcs7_remove_iff (p : Padder) (hs : p.scheme = .pkcs7) (st : PadState) (c : List Nat) :
+    ((∃ r, p.remove st c = .ok r) ↔ pkcs7WellPadded p.blocklen c) ∧
+    (∀ r, p.remove st c = .ok r → ∃ q, c.getLast? = some q ∧ r = c.take (c.length - q)) := by
+  have h := remove_pkcs7 p hs st c
+  constructor
+  · rw [← pkcs7Unpad_isSome_iff, ← h]
+    cases p.remove st c <;> simp [okOf]
+  · intro r hr
+    rw [hr] at h
+    simp only [okOf, pkcs7Unpad] at h
+    cases hq : c.getLast? with
+    | none => rw [hq] at h; simp at h
+    | some q =>
+      rw [hq] at h; simp only at h
+      split at h
+      · exact ⟨q, rfl, by simpa using h⟩
+      · simp at h
+
+/-- ANSI X9.23: `remove` succeeds exactly on the well-padded strings (last byte q, 1 ≤ q ≤ block length, the q−1
+    bytes before it zero) and then strips those q bytes; every other string raises -/
+theorem x923_remove_iff (p : Padder) (hs : p.scheme = .x923) (st : PadState) (c : List Nat) :
+    ((∃ r, p.remove st c = .ok r) ↔ x923WellPadded p.blocklen c) ∧
+    (∀ r, p.remove st c = .ok r → ∃ q, c.getLast? = some q ∧ r = c.take (c.length - q)) := by
+  have h := remove_x923 p hs st c
+  constructor
+  · rw [← x923Unpad_isSome_iff, ← h]
+    cases p.remove st c <;> simp [okOf]
+  · intro r hr
+    rw [hr] at h
+    simp only [okOf, x923Unpad] at h
+    cases hq : c.getLast? with
+    | none => rw [hq] at h; simp at h
+    | some q =>
+      rw [hq] at h; simp only at h
+      split at h
+      · exact ⟨q, rfl, by simpa using h⟩
+      · simp at h
 
 /-! ### requests that cannot be met are refused (no block, an exception, the object unchanged) -/
 
